@@ -6,7 +6,7 @@ def make_jobs(ctx):
     src = "c14_path.c"
     jobs = []
     # unbounded: real PATH_MAX, directory and path strings of every length (library contracts for strlen / memcpy; resolvePath has no loop of its own)
-    jobs.append(wasi_job(ctx, "W.resolvePath.unbounded", "c14_resolve_u.c", "h_resolve_u", ["wasi.c:resolvePath"], defines=["GMEM=8"], unwind=4, solver="z3",
+    jobs.append(wasi_job(ctx, "W.resolvePath.unbounded", "c14_resolve_u.c", "h_resolve_u", ["wasi.c:resolvePath"], defines=["GMEM=8"], unwind=4, solver="z3", timeout=900,
                          info=dict(note="PATH_MAX = 4096 (the host's value); directory length 1..8192, path length 0..12288, every byte value; ghost position G in the result")))
     pms = [16, 24] + ([32] if ctx.tier == "thorough" else [])
     for pm in pms:
